@@ -404,6 +404,6 @@ class Spec(PropSpec):
 
 
 THEOREMS = ["c02_prefix", "c02_peek_prefix", "c02_peek_then_read", "c02_no_overflow", "c02_credits",
-            "c02_wouldblock_iff", "c02_complete", "c02_nonvacuous"]
+            "c02_wouldblock_iff", "c02_reset_unblocks", "c02_complete", "c02_nonvacuous"]
 Spec.theorems = THEOREMS
 SPEC = Spec()
